@@ -320,7 +320,7 @@ class Gen:
                         buf = rng.choice((512, 1024, 4096, 65536, rng.randrange(max(512, cl // 64), 65537)))
                     flt = rng.choice((0, 0, 2)) if cl < 4000 else 0
                     self.rq(flt, ct, cl, climit, mlimit, mem, disk, buf, b"", chs, kind="rq-wf", expect=exp,
-                            group=(gid, ci), body=body)
+                            group=(gid, ci), body=body, parts=parts)
             # raw filter sees every byte once
             self.rq(1, ct, cl, cl, cl, 0, True, rng.choice((1, 5, 64, 65536)) if cl < 4000 else 4096, b"q=1", chunk_at(body, cuts_random(rng, cl, 4)),
                     kind="rq-raw", body=body)
@@ -424,6 +424,10 @@ class Gen:
                     self.rq(0, the_ct, cl, lim, 0, 0, True, 16, b"", [body], kind="rq-form-limit",
                             expect=None if lim >= cl else "status 413", malformed=(mal and is_ue and lim >= cl))
             self.rq(0, the_ct, cl + 2, cl + 10, 0, 0, True, 16, b"", [body], kind="rq-form-short", expect="waiting")
+
+
+def m_parts(m, cs):
+    return m.get("parts") or []
 
 
 def nontrivial_key(cs, o):
@@ -554,6 +558,26 @@ def main():
             if kind in ("rq-wf", "rq-long", "rq-short", "rq-form-short", "rq-form-limit") and m.get("expect"):
                 if head != m["expect"]:
                     bad.append((k, f"expected `{m['expect'][:120]}`"))
+            if kind == "rq-wf" and cs.startswith("rq 2 ") and head.startswith("status 200"):
+                # multipart filter: every part announced once (on_new_file, size 0) and completed once (on_data_ready, its size),
+                # in order, progress sizes never decreasing within a part, then on_end_of_content
+                mm = re.search(r" ev (\S+)", o)
+                evs = mm.group(1).split(",") if mm and mm.group(1) != "-" else []
+                want = []
+                for p in m_parts(m, cs):
+                    want += ["new:" + hx(p["name"]) + ":0", "ready:%d" % len(p["data"])]
+                got = [e for e in evs if not e.startswith("prog:")]
+                ok = got == want + ["end"]
+                last = 0
+                for e in evs:
+                    if e.startswith("new:"):
+                        last = 0
+                    elif e.startswith(("prog:", "ready:")):
+                        v = int(e.split(":")[1])
+                        ok = ok and v >= last
+                        last = v
+                if not ok:
+                    bad.append((k, "multipart filter did not see each part exactly once (new/ready/end trace)"))
             if kind == "rq-raw":
                 mm = re.search(r" raw (\S+) ev (\S+)", o)
                 if not head.startswith("status 200 post - files -") or not mm or mm.group(1) != hx(m["body"]) or not mm.group(2).endswith("end"):
@@ -580,7 +604,12 @@ def main():
         c.extra_cov["judged_impl_outputs"] = sum(1 for m in meta if m.get("kind") not in ("enc", "encform", "hdrok", "ct", "mp-mal", "rq-mal"))
         c.extra_cov["chunking_groups"] = len(groups)
 
-        if crashed:
+        late_crash = None
+        if crashed and crashed.get("case") is None and crashed.get("rc") == 3:
+            # the harness answered every case and found temporary upload files left behind at exit: the per-case
+            # TEMP-FILES-LEFT flags (in `bad`) name the failing inputs; report this one after them
+            late_crash = crashed
+        elif crashed:
             c.violation("sanitizer abort / crash of the real code", {"case": crashed["case"], "stderr": crashed["stderr"]})
         seen_idx = set()
         for k, why in sorted(bad):
@@ -593,9 +622,12 @@ def main():
             c.violation("property predicate false on implementation output: " + why,
                         {"case": cases[k], "meta": mm, "impl_output": out_i[k], "model_output": out_m[k] if k < len(out_m) else None,
                          "replay_cmd": "bin/check C12 --replay <this file>"})
+        if late_crash:
+            c.violation("temporary upload files left behind when the harness exits", {"case": None, "stderr": late_crash["stderr"]},
+                        concrete=bool(bad))
         for wid, (k, o) in known_hits.items():
             c.known_finding(wid, f"id={wid} malformed urlencoded POST body delivered in part with status 200 (witness {meta[k].get('file')}: {o[:120]})")
-        if diffs and not bad and not crashed:
+        if diffs and not bad and not (crashed and not late_crash):
             k, cs, a, b = diffs[0]
             c.broke("correspondence stream multipart+request", f"{len(diffs)} differing cases; first: {cs[:300]} impl={a[:300]} model={b[:300]}")
             c.violation("model and implementation disagree (no property violation found among the explored cases)",
